@@ -84,6 +84,22 @@ Definition eat_sign (s : list ascii) : bool * list ascii :=
    `strict`: digits are required after a point (the grammar of Decnum/Hexnum
    strings); Python source literals (`strict = false`) may end in a point.
    One accumulator runs through the integer and the fraction digits. *)
+(* the optional exponent and the end of the string; m = accumulated digits, n2 = number of fraction digits *)
+Definition sci_tail (base eb : Z) (is_e : ascii -> bool) (us : bool) (m n2 : Z) (s3 : list ascii) : option Q :=
+  match s3 with
+  | [] => Some (mkq m base n2 eb 0)
+  | c :: t =>
+      if is_e c then
+        let '(eneg, t1) := eat_sign t in
+        let '(e, ne, t2) := eat 10 us 0 0 t1 in
+        if ne =? 0 then None
+        else match t2 with
+             | [] => Some (mkq m base n2 eb (if eneg then - e else e))
+             | _ => None
+             end
+      else None
+  end.
+
 Definition sci_body (base eb : Z) (is_e : ascii -> bool) (us strict : bool) (s1 : list ascii) : option Q :=
   let '(m1, n1, s2) := eat base us 0 0 s1 in
   let '(m, n2, dot, s3) :=
@@ -94,25 +110,24 @@ Definition sci_body (base eb : Z) (is_e : ascii -> bool) (us strict : bool) (s1 
     end in
   if n1 + n2 =? 0 then None
   else if strict && dot && (n2 =? 0) then None
-  else
-    match s3 with
-    | [] => Some (mkq m base n2 eb 0)
-    | c :: t =>
-        if is_e c then
-          let '(eneg, t1) := eat_sign t in
-          let '(e, ne, t2) := eat 10 us 0 0 t1 in
-          if ne =? 0 then None
-          else match t2 with
-               | [] => Some (mkq m base n2 eb (if eneg then - e else e))
-               | _ => None
-               end
-        else None
-    end.
+  else sci_tail base eb is_e us m n2 s3.
 
-(* [sign] body: (is the spelling negative, magnitude) *)
-Definition sci_denote (base eb : Z) (is_e : ascii -> bool) (us strict : bool) (s : list ascii) : option (bool * Q) :=
+(* a fixed prefix ("0x") *)
+Fixpoint drop_prefix (p s : list ascii) : option (list ascii) :=
+  match p, s with
+  | [], _ => Some s
+  | a :: p', c :: s' => if is_char a c then drop_prefix p' s' else None
+  | _ :: _, [] => None
+  end.
+
+(* [sign] prefix body: (is the spelling negative, magnitude) *)
+Definition sci_denote (base eb : Z) (is_e : ascii -> bool) (prefix : list ascii) (us strict : bool) (s : list ascii)
+  : option (bool * Q) :=
   let '(neg, s1) := eat_sign s in
-  match sci_body base eb is_e us strict s1 with Some q => Some (neg, q) | None => None end.
+  match drop_prefix prefix s1 with
+  | Some s2 => match sci_body base eb is_e us strict s2 with Some q => Some (neg, q) | None => None end
+  | None => None
+  end.
 
 Definition signed (r : option (bool * Q)) : option lval :=
   match r with
@@ -129,22 +144,12 @@ Definition chars (s : string) : list ascii := list_ascii_of_string s.
 (* a decimal string (the text of a Decnum): "-12.50e-3"; `strict`: digits are
    required after a point *)
 Definition dec_denote (strict : bool) (s : string) : option lval :=
-  signed (sci_denote 10 10 (is_char "e") false strict (strip (chars s))).
+  signed (sci_denote 10 10 (is_char "e") [] false strict (strip (chars s))).
 
 (* a hexadecimal-float string (the argument of fp.hexfloat): "-0x1.8p3":
    [sign] 0x body, hexadecimal digits, binary exponent after `p` *)
 Definition hex_denote (s : string) : option lval :=
-  let '(neg, t1) := eat_sign (strip (chars s)) in
-  match t1 with
-  | z :: x :: t2 =>
-      if is_char "0" z && is_char "x" x then
-        match sci_body 16 2 (is_char "p") false true t2 with
-        | Some q => signed (Some (neg, q))
-        | None => None
-        end
-      else None
-  | _ => None
-  end.
+  signed (sci_denote 16 2 (is_char "p") ["0"%char; "x"%char] false true (strip (chars s))).
 
 (* a Python float literal as written in the source: "1_000.5E-3", "5.", ".5":
    underscores are ignored and the exponent letter may be upper case
@@ -152,7 +157,7 @@ Definition hex_denote (s : string) : option lval :=
 Definition normalize_pyfloat (s : string) : list ascii :=
   filter (fun c => negb (is_char "_" c)) (map lower (chars s)).
 Definition pyfloat_denote (s : string) : option lval :=
-  signed (sci_denote 10 10 (is_char "e") false false (normalize_pyfloat s)).
+  signed (sci_denote 10 10 (is_char "e") [] false false (normalize_pyfloat s)).
 
 (* a Python integer literal: decimal, 0x / 0o / 0b prefixed, with underscores *)
 Definition pyint_denote (s : string) : option Z :=
@@ -199,6 +204,25 @@ Fixpoint span (p : ascii -> bool) (s : list ascii) : list ascii * list ascii :=
    The character classes are pairwise disjoint, so the greedy scan is the
    regular expression's only way to match.  `relaxed`: D+\.D* is accepted too
    (the decimal pattern of fixes/C06-parser-float-spelling.diff). *)
+(* group 5 and the end of the string *)
+Definition re_tail (echar : ascii) (mant s5 : list ascii) : option (list ascii * option (list ascii)) :=
+  match s5 with
+  | [] => Some (mant, None)
+  | c :: t =>
+      if is_char echar c then
+        let '(es, t1) :=
+          match t with
+          | d :: t' => if is_char "-" d || is_char "+" d then ([d], t') else ([], t)
+          | [] => ([], [])
+          end in
+        let '(ed, t2) := span (is_digit 10) t1 in
+        match ed, t2 with
+        | _ :: _, [] => Some (mant, Some (es ++ ed))
+        | _, _ => None
+        end
+      else None
+  end.
+
 (* groups 2 and 5: the mantissa and the exponent *)
 Definition re_body (isd : ascii -> bool) (echar : ascii) (relaxed : bool) (s2 : list ascii)
   : option (list ascii * option (list ascii)) :=
@@ -218,30 +242,7 @@ Definition re_body (isd : ascii -> bool) (echar : ascii) (relaxed : bool) (s2 : 
     end in
   match mant_rest with
   | None => None
-  | Some (mant, s5) =>
-      match s5 with
-      | [] => Some (mant, None)
-      | c :: t =>
-          if is_char echar c then
-            let '(es, t1) :=
-              match t with
-              | d :: t' => if is_char "-" d || is_char "+" d then ([d], t') else ([], t)
-              | [] => ([], [])
-              end in
-            let '(ed, t2) := span (is_digit 10) t1 in
-            match ed, t2 with
-            | _ :: _, [] => Some (mant, Some (es ++ ed))
-            | _, _ => None
-            end
-          else None
-      end
-  end.
-
-Fixpoint drop_prefix (p s : list ascii) : option (list ascii) :=
-  match p, s with
-  | [], _ => Some s
-  | a :: p', c :: s' => if is_char a c then drop_prefix p' s' else None
-  | _ :: _, [] => None
+  | Some (mant, s5) => re_tail echar mant s5
   end.
 
 Definition re_sci (isd : ascii -> bool) (echar : ascii) (prefix : list ascii) (relaxed : bool) (s : list ascii)
